@@ -621,3 +621,12 @@ def run(ctx, prog):
                          'TenantIdMapper.map' in flow.render(flow.Origin(c.body).of_operand(c.args[0]))))
     ctx.inst('C10.R8', 'TenantIdMapper.map', 'write access only in ensure_tenant', [w.split('::', 1)[-1] for w in writers] == ['TenantIdMapper::ensure_tenant'], 'writers: %s' % writers)
     ctx.stat('functions_analysed', len(set(i['key'].split(' | ')[1] for i in ctx.instances)))
+
+    # ------------------------------------------------------------------ R9
+    ctx.rule('C10.R9', 'a filter names the documents it was evaluated on: BatchDelete-by-filter and filtered search resolve a tenant-scoped metadata filter '
+                       'through the inverted index to internal slots; every function that renumbers or rewrites slots (tombstone compaction, upsert, delete) '
+                       'maintains the index on every path to a normal return, so a posting never points at a slot that now holds another tenant\'s document '
+                       '(same analysis as C11.R2)')
+    from rules import C11 as _C11
+    _C11.maintenance_pairing(ctx, prog, 'C10.R9')
+    ctx.stat('functions_analysed', len(set(i['key'].split(' | ')[1] for i in ctx.instances)))
